@@ -6,6 +6,7 @@ no proofs), so it builds as a native executable.
 import Lean.Data.Json
 import ThaiLintModel.C01.Drv
 import ThaiLintModel.C02.Drv
+import ThaiLintModel.C03.Drv
 import ThaiLintModel.C06.Drv
 import ThaiLintModel.C07.Drv
 import ThaiLintModel.C08.Drv
@@ -19,6 +20,7 @@ def dispatch (j : Json) : Json :=
   match (j.getObjValAs? String "prop").toOption.getD "" with
   | "C01" => ThaiLintModel.C01.handle j
   | "C02" => ThaiLintModel.C02.handle j
+  | "C03" => ThaiLintModel.C03.handle j
   | "C06" => ThaiLintModel.C06.handle j
   | "C07" => ThaiLintModel.C07.handle j
   | "C08" => ThaiLintModel.C08.handle j
